@@ -78,6 +78,8 @@ class Env:
         return e
 
 
+from . import explore as explore_mod
+
 class Interp:
     def __init__(self, explorer, src_index, registry=None, extended=False):
         self.ex = explorer
@@ -422,6 +424,20 @@ class Interp:
     def e_Compare(self, node, env):
         left = self.eval(node.left, env)
         result = None
+        if len(node.ops) > 1 and str(env.globs.get('__name__', '')).startswith('contracts.'):
+            # sidecar code is pure: a chained comparison is the conjunction of its links (no path split)
+            links = []
+            for op, rnode in zip(node.ops, node.comparators):
+                right = self.eval(rnode, env)
+                r = self.compare(op, left, right)
+                if not isinstance(r, VBool):
+                    links = None
+                    break
+                links.append(r.t)
+                left = right
+            if links is not None:
+                return VBool(z3.And(links))
+            left = self.eval(node.left, env)
         for op, rnode in zip(node.ops, node.comparators):
             right = self.eval(rnode, env)
             r = self.compare(op, left, right)
@@ -764,6 +780,7 @@ class Interp:
             self.exec(s, env)
 
     def exec(self, node, env):
+        explore_mod.CUR_LINE = (env.qual, getattr(node, 'lineno', 0))
         m = getattr(self, 's_' + type(node).__name__, None)
         if m is None:
             raise Unsupported(f'statement {type(node).__name__} at line {node.lineno}')
@@ -881,13 +898,16 @@ class Interp:
             import inspect
             from .values import truthy as _truthy
             kwargs = {}
-            for p_ in inspect.signature(fn).parameters:
+            for p_, par in inspect.signature(fn).parameters.items():
                 if p_ == 'result':
                     kwargs[p_] = v
                 else:
                     try:
                         kwargs[p_] = env.lookup(p_)
                     except KeyError:
+                        if par.default is None:
+                            kwargs[p_] = NONE       # optional: a ghost / local that does not exist in this phase
+                            continue
                         raise Unsupported(f'exit assertion mentions unknown local {p_!r}')
             ok = self.call(self.lift(fn), [], kwargs)
             self.ex.prove(f'{env.qual.replace("serif.", "", 1)}:exit', _truthy(ok), kind='post')
